@@ -63,7 +63,14 @@ QueryOk(k) ==
   /\ d.m.qd = <<w>> /\ d.m.an = <<>> /\ d.m.ns = <<>> /\ Len(d.m.ar) = (IF k.edns > 0 THEN 1 ELSE 0)
   /\ k.has /\ k.err = 0 /\ k.ret = 0 /\ k.msg.id = k.qid /\ k.msg.qdcount = 1 /\ QEq(k.msg.q, w)
   /\ QEq(k.query, w)
-POk(k) == ~k.abort /\ (IF k.fn = "u" THEN UnpackOk(k) ELSE QueryOk(k))
+\* memory safety seen from outside: names are delivered in 256-octet buffers (RFC1035_MAXHOSTNAMESZ); the driver reads a name
+\* up to its terminator or the end of its buffer, so a reported text of 256 octets is a buffer without terminator, i.e. the
+\* decoder wrote at least one octet more than the buffer holds
+BufCap == 256
+Terminated(k) == k.has => /\ Len(k.msg.q.name) < BufCap
+                          /\ \A j \in 1..Len(k.msg.rr) : /\ Len(k.msg.rr[j].name) < BufCap
+                                                         /\ (k.msg.rr[j].type = TypePTR => Len(k.msg.rr[j].rdata) < BufCap)
+POk(k) == ~k.abort /\ (IF k.fn = "u" THEN UnpackOk(k) /\ Terminated(k) ELSE QueryOk(k))
 \* ---- today's exact behaviour
 RECURSIVE RRPrefix(_, _, _)
 RRPrefix(b, off, n) == IF n = 0 \/ off >= Len(b) THEN <<>>
